@@ -143,6 +143,9 @@ func StartNode(cfg NodeConfig, chain *forge.Chain) (*Node, error) {
 		return nil, err
 	}
 	n.RO = ro
+	// the daemon idles at its current height until WaitSynced raises the cap (otherwise the first
+	// `heights` answer after Run() could already show the whole chain)
+	n.Fake.SetCap(p.Sync.Synced)
 	return n, nil
 }
 
